@@ -182,8 +182,48 @@ def check_rand(case):
     return None
 
 
+def _spoil(obj):
+    """overwrite, in place, every array / dict / list an object hands out (a caller may do that with what it was given)"""
+    vals = list(vars(obj).values()) if hasattr(obj, "__dict__") and not isinstance(obj, (np.ndarray, dict, list)) else [obj]
+    for v in vals:
+        try:
+            if isinstance(v, np.ndarray) and v.dtype.kind in "US" and v.size:
+                v[...] = "Z99"
+            elif isinstance(v, dict):
+                v.clear()
+            elif isinstance(v, list):
+                del v[:]
+        except (ValueError, TypeError):  # read-only arrays may refuse: fine
+            pass
+
+
+def check_spoil(case):
+    """transforms of one shape are built and checked twice in a row; in between, everything the first round handed out
+    (helper arrays / dicts, attributes of the transform objects, results) is overwritten in place by the caller.  The second
+    round must behave like the first: results may not depend on objects an earlier call gave away."""
+    from robotools.transform import make_well_array, make_well_index_dict
+
+    R, C = case["shape"]
+    seed, mode = case.get("seed", 1), case.get("mode", "row")
+    for rnd in (1, 2):
+        a, d = make_well_array(R, C), make_well_index_dict(R, C)
+        if [list(map(str, row)) for row in a] != plate(R, C):
+            return f"P{rnd} make_well_array({R},{C}) is not the id array of the plate" + (" after the caller overwrote an earlier result" if rnd == 2 else "")
+        if dict(d) != {wid(r, c): (r, c) for r in range(R) for c in range(C)}:
+            return f"P{rnd} make_well_index_dict({R},{C}) is not the index map of the plate" + (" after the caller cleared an earlier result" if rnd == 2 else "")
+        err = check_rot({"shape": [R, C]}) or check_shift({"A": [R, C], "B": [R + 1, C + 1], "anchor": wid(1, 1)}) \
+            or check_rand({"shape": [R, C], "seed": seed, "mode": mode})
+        if err:
+            return err + (" (second round, after the caller overwrote what the first round handed out)" if rnd == 2 else "")
+        objs = [a, d, WellRotator((R, C)), WellShifter((R, C), (R + 1, C + 1), wid(1, 1)), WellRandomizer((R, C), seed, mode=mode)]
+        outs = [objs[2].rotate_cw(plate(R, C)), objs[3].shift(plate(R, C)), objs[4].randomize_wells(plate(R, C))]
+        for o in objs + outs:
+            _spoil(o)
+    return None
+
+
 def check(case):
-    return {"shift": check_shift, "rot": check_rot, "rand": check_rand}[case["kind"]](case)
+    return {"shift": check_shift, "rot": check_rot, "rand": check_rand, "spoil": check_spoil}[case["kind"]](case)
 
 
 # ---------------------------------------------------------------- generators
@@ -299,6 +339,10 @@ def main():
             if fail_kinds[cat] <= 3 and len(failures) < 12:
                 failures.append({"what": f"{case['kind']}: {what}"[:300], "replay": write_replay(case, what)})
 
+    for shp in ([[1, 1], [2, 3], [3, 2], [8, 12], [4, 6]] if quick else [[r, c] for r in (1, 2, 3, 8, 16) for c in (1, 2, 5, 12, 24)]):
+        for mode in ("full", "row", "column"):
+            run({"kind": "spoil", "shape": shp, "seed": 3, "mode": mode}, "state handed out between calls",
+                "per shape and mode: all transforms built and checked, every array/dict/result they handed out overwritten in place, then built and checked again")
     n = 3 if quick else 5
     for case in gen_shift_small(n):
         run(case, "WellShifter (exhaustive)", f"all shape pairs A, B in 1..{n} x 1..{n}, every anchor on B plus two anchors just off B; full plate as 2-D list and ndarray")
